@@ -790,7 +790,7 @@ func init() {
 	register(&engine.Check{
 		ID: "C13", Level: "model_checking",
 		Rule:        "per case (data prefix of abcdefghij or a multi-byte variant, initial size incl. 0 and the default constructor, reader failing at offset f or ending with EOF, start state = initial or after 1..4 iterations of the canonical token loop with/without Free): breadth-first search over all contract-respecting operation histories up to the depth bound × reader answers (fill / zero-length / 1 / 2 / all-but-one / error-or-EOF together with the last bytes) within the deviation bound, de-duplicated on a reflective state key; every step compared with a cursor over the complete data, the ledger of returned slices checked after every step; plus periodic streams for the memory clause. distinct_nontrivial = cases",
-		Assumptions: []string{"contract: the caller peeks at every byte before moving over it, never moves before start, frees at most what was shifted", "a Lexeme() slice is held to the same lifetime rule as a Shift() slice (valid until bytes up to its end are freed)"},
+		Assumptions: []string{"contract: the position never moves past the end of the data or before start, at most what was shifted is freed; moves over bytes that were not peeked at are bounded deviations (1 quick / 2 thorough per history)", "a Lexeme() slice is held to the same lifetime rule as a Shift() slice (valid until bytes up to its end are freed)"},
 		Setup:       c13Setup, Work: c13Work, Finish: c13Finish,
 	})
 }
